@@ -677,6 +677,9 @@ def rule_r7(prog, res):
     res.share('R7', 'a facet removed by derivation is gone (C05-R11); '
               'derivation does not touch the parent\'s subclass registry '
               '(C16-R9)', 'C16', c16.rule_r9, prog, Result)
+    res.share('R7', 'a facet removed by derivation is gone (C05-R11); '
+              'derivation does not touch the parent\'s subclass registry '
+              '(C16-R9)', 'C16', c16.rule_r1, prog, Result)
 
 
 def run(prog, res, tier):
